@@ -1,5 +1,6 @@
 import FiberModel.DriverUtil
 import FiberModel.C11.Spec
+import FiberModel.C11.Float
 /-
 Driver for C11. Case fields (after the id):
   rt  source split auto schema  v₁ … vₙ (one hex list of texts per schema entry)            implObs
@@ -126,14 +127,33 @@ def readDec (specs : List FieldSpec) (dec : String) : Option (List (List Val)) :
     let ts ← hexList p
     ts.mapM (readVal sp.kind)
 
-def idFloat : Nat → Bytes → Option Bytes := fun _ t => some t
-def noFloat : Nat → Bytes → Option Bytes := fun _ _ => none
+/-- the float converter of the model (Float.lean); a text outside the modelled grammar (underscores,
+    hexadecimal mantissas) is never passed: the callers check `floatUnsupported` first -/
+def mFloat : Nat → Bytes → Option Bytes := fun bits t =>
+  match floatConvX bits t with
+  | some r => r
+  | none => some t
+
+/-- some float text of the case is outside the modelled grammar, or is one the model cannot format -/
+def floatTextUnsupported (bits : Nat) (t : Bytes) : Bool :=
+  !t.isEmpty &&
+  match floatConvX bits t with
+  | none => true
+  | some (some _) => false
+  | some none => t.contains 44 && (splitOn t 44).any fun p => !p.isEmpty && (floatConvX bits p).isNone
 
 /-- data keys that would make gofiber/schema's result depend on Go's map order, or that fold to an
     alias only under Unicode case folding (U+017F, U+212A) -/
 def ambiguous (specs : List FieldSpec) (data : List (Bytes × List Bytes)) : Bool :=
   specs.any (fun f => decide ((data.filter fun kv => !kv.1.contains 46 && toLower kv.1 == toLower f.salias).length > 1)) ||
   data.any fun kv => (indexOf kv.1 [197, 191]).isSome || (indexOf kv.1 [226, 132, 170]).isSome
+
+def floatUnsupported (specs : List FieldSpec) (data : List (Bytes × List Bytes)) : Bool :=
+  specs.any fun f => match f.kind with
+    | .float bits => match lookupField data f.salias with
+      | some ts => ts.any (floatTextUnsupported bits)
+      | none => false
+    | _ => false
 
 def floatTouched (specs : List FieldSpec) (data : List (Bytes × List Bytes)) : Bool :=
   specs.any fun f => match f.kind with
@@ -167,28 +187,83 @@ def handleRT (id : String) (src split auto schema : String) (vals : List String)
   let body (codec : String) (ct : Bytes) : String :=
     renderObs (toHexField ct) (renderDec (structVals st)) false 0 200 codec
   let viaPairs (s : Source) (wire : String) (pairs : List (Bytes × Bytes)) : String :=
-    let r := bindPairs idFloat (b "0") specs s split pairs
+    let r := bindPairs mFloat (b "0") specs s split pairs
     renderObs wire (renderDec (structVals r.value)) r.err (codeOf auto r.err) (statusOf auto r.err false) "-"
-  let modelObs : String :=
-    if !wf then impl
-    else match t with
-      | .query => let w := renderArgs (clientPairs st); viaPairs .query (toHexField w) (parseArgs w)
-      | .form => let w := renderArgs (clientPairs st); viaPairs .form (toHexField w) (parseArgs w)
-      | .header =>
-        let ps := clientPairsN normalizeHeaderKey st   -- fasthttp canonicalises the names the client adds
-        -- the harness lists the `X-…` lines only (the others are the client's own headers)
-        let xs := ps.filter fun kv => decide (kv.1.length > 2) && kv.1.take 2 == b "X-"
-        viaPairs .header (hexListField (xs.map fun kv => kv.1 ++ b ": " ++ kv.2)) ps
-      | .cookie =>
-        let ps := cookiePairs st
-        viaPairs .cookie (toHexField (cookieItems ps)) (parseCookies (renderCookies ps))
+  -- `none` = the case is outside the modelled domain of its transport (prediction = observation)
+  let hasCRLF := st.any fun f => f.vals.any fun v => match v with
+    | .str s => s.contains 10 || s.contains 13
+    | _ => false
+  let modelObs? : Option String :=
+    match t with
+    | .header =>
+      -- fasthttp's header writer + scanner are modelled for every LF/CR-free value, inside `wfVal` or not
+      if hasCRLF then none
+      else match headerTransport (clientPairs st) with
+        | .ok ps _ =>
+          -- the harness lists the `X-…` lines only (the others are the client's own headers)
+          let xs := ps.filter fun kv => decide (kv.1.length > 2) && kv.1.take 2 == b "X-"
+          some (viaPairs .header (hexListField (xs.map fun kv => kv.1 ++ b ": " ++ kv.2)) ps)
+        | .bad => some "notrun;status=400"
+        | .unsupported => none
+    | .cookie =>
+      let ps := cookiePairs st
+      if wf then some (viaPairs .cookie (toHexField (cookieItems ps)) (parseCookies (renderCookies ps)))
+      else
+        -- outside `wfVal`: the Cookie header is one header line (scanner + byte check), then the cookie
+        -- scanner. Not predicted when the outcome depends on the Go map order of the client's store
+        -- (a ';' inside a value makes new pairs, a trailing blank is stripped only at the end of the line).
+        let orderDependent := st.any fun f => f.vals.any fun v => match v with
+          | .str s => s.contains 59 || s.getLast? == some 9 || s.getLast? == some 32
+          | _ => false
+        if hasCRLF || orderDependent then none
+        else
+          let h := renderCookies ps
+          if !h.all headerValueByte then some "notrun;status=400"
+          else
+            -- the wire observation is the header as received (quotes still in place)
+            some (viaPairs .cookie (toHexField (cookieItems ps)) (parseCookies h))
+    | _ =>
+      if !wf then none
+      else match t with
+      | .query => let w := renderArgs (clientPairs st); some (viaPairs .query (toHexField w) (parseArgs w))
+      | .form => let w := renderArgs (clientPairs st); some (viaPairs .form (toHexField w) (parseArgs w))
+      | .header => none
+      | .cookie => none
       | .multipart =>
-        -- the multipart codec is a parameter that delivers the client's pairs (grouped per key) to
-        -- `FormBinding.bindMultipart`, which runs the same `formatBindData` as the urlencoded form
-        viaPairs .form (toHexField (b "multipart/form-data")) (clientPairs st)
-      | .json => body "json" (b "application/json")
-      | .xml => body "xml" (b "application/xml")
-      | .cbor => body "cbor" (b "application/cbor")
+        -- wire = content type ':' length '.' checksum of the body. The boundary is drawn at random by the client: the model takes
+        -- it from the observed content type (a parameter), writes the body (`parserRequestBodyFile`),
+        -- reads it back (mime/multipart reader on that shape) and binds the values found
+        -- (`FormBinding.bindMultipart` runs the same `formatBindData` as the urlencoded form).
+        match io.wire.splitOn ":" with
+        | [cth, _] =>
+          match (fromHex cth).bind (cutAtPat (b "boundary=")) with
+          | some (_, bd) =>
+            let body := writeMultipart bd (clientPairs st) [(b "file1", b "f.txt", b "file-content")]
+            -- the observation carries length and a rolling checksum of the body the client wrote
+            let h := body.foldl (fun h c => (h * 257 + c + 1) % 1000000007) 0
+            let w := toHexField (b "multipart/form-data; boundary=" ++ bd) ++ s!":{body.length}.{h}"
+            match readMultipart bd body with
+            | some ps => some (viaPairs .form w ps)
+            | none => none      -- some value contains CRLF "--" boundary: outside the reader model
+          | none => some (viaPairs .form "?" (clientPairs st))
+        | _ => some (viaPairs .form "?" (clientPairs st))
+      | .json => some (body "json" (b "application/json"))
+      | .xml => some (body "xml" (b "application/xml"))
+      | .cbor => some (body "cbor" (b "application/cbor"))
+  -- the claim behind `floatOK_exact`: a value whose full decimal expansion has at most 15 significant
+  -- digits is sent as that expansion. Checked on every float of every round trip.
+  let floatTexts : List (Nat × Bytes) := st.flatMap fun f => match f.spec.kind with
+    | .float bits => f.vals.filterMap fun v => match v with
+      | .float t => some (bits, t)
+      | _ => none
+    | _ => []
+  let shortExact (bt : Nat × Bytes) : Option Bool :=   -- some ok = in the exact class
+    match parseFloat bt.1 bt.2 with
+    | some (some (.fin neg m e)) => if isShortExact m e then some (exactText neg m e == bt.2) else none
+    | _ => none
+  let exactBroken := floatTexts.any fun bt => shortExact bt == some false
+  let modelObs : String := if exactBroken then "model-claim-broken: short float not sent as its exact expansion"
+                           else modelObs?.getD impl
   -- ---- spec on the implementation's observation ----
   let obs : Option Obs :=
     match io.kind with
@@ -206,8 +281,10 @@ def handleRT (id : String) (src split auto schema : String) (vals : List String)
   let k1region := t == .cookie && multiValuedSlice st
   let k1 := k1region && io.kind == "obs" && !io.err && io.status == 200 &&
             (readDec specs io.dec) == some (structVals (lastOnly st))
-  let tags := [s!"rt-{src}", if wf then "wf" else "outside-model",
+  let tags := [s!"rt-{src}", if wf then "wf" else "not-wf"] ++ (if modelObs?.isNone then ["outside-model"] else []) ++ [
                if split && !noCommas st then "split-with-commas" else if split then "split-no-commas" else "nosplit"] ++
+              (if floatTexts.any (fun bt => (shortExact bt).isSome && bt.2 != b "0") then ["float-exact"] else []) ++
+              (if floatTexts.any (fun bt => (shortExact bt).isNone) then ["float-shortest"] else []) ++
               (if k1region then ["k1-region"] else []) ++ (if k1 then ["k1-exact"] else []) ++
               (if wf && !isZeroStruct st then [s!"nt-rt-{src}"] else [])
   pure { id := id, modelObs := modelObs, implObs := impl, spec := spec,
@@ -326,9 +403,9 @@ def handleRaw (id : String) (src split auto target schema ctype payload hdrs mp 
        | none => pure (renderObs wire zeroDec true (codeOf auto true) (statusOf auto true false) "-")
        | some data =>
          if ambiguous specs data then pure "FLOAT"   -- Go map order decides: not predicted
-         else if floatTouched specs data then pure "FLOAT"
+         else if floatUnsupported specs data then pure "FLOAT"
          else
-           let r := decodeFields noFloat (b "0") specs data
+           let r := decodeFields mFloat (b "0") specs data
            pure (renderObs wire (renderDec (structVals r.1)) r.2 (codeOf auto r.2)
                    (statusOf auto r.2 false) "-") : Except String String)
   if modelObs == "FLOAT" then outside := true
@@ -341,7 +418,14 @@ def handleRaw (id : String) (src split auto target schema ctype payload hdrs mp 
   -- not for the opaque body codecs, not when no decoder is selected)
   let refuse := if opq || noCodec then none else mustFail specs s.brackets (target == "struct") pairs
   let spec := specTotal auto (src == "body" && dispatch ctype == Codec.none) obs refuse
-  let tags := [s!"raw-{src}", s!"to-{target}", if io.err then "err" else "ok"] ++
+  let floatTag : List String :=
+    if target == "struct" && !opq && !noCodec then
+      match collect (equalFieldType specs) split s.brackets pairs [] with
+      | some data =>
+        if floatTouched specs data then [if floatUnsupported specs data then "float-unsupported" else "float-modelled"] else []
+      | none => []
+    else []
+  let tags := [s!"raw-{src}", s!"to-{target}", if io.err then "err" else "ok"] ++ floatTag ++
               (if opq then ["codec-opaque"] else []) ++ (if noCodec then ["no-codec"] else []) ++
               (if outside then ["outside-model"] else []) ++
               (match refuse with | some c => [s!"must-{c}"] | none => []) ++
